@@ -1001,6 +1001,42 @@ def simplify_under_guard(t: Any, guard, sa: SetAlg) -> Any:
         return t
 
 
+def _factor_args(t: Any) -> list:
+    """the collections handed to Product.safe / Product(...) inside a term, in order"""
+    out = []
+    for s_ in subterms_of(t):
+        if s_[0] == "call" and isinstance(s_[1], str) and s_[1].endswith("Product.safe") and len(s_) == 4:
+            a_ = dict(s_[3]).get("expressions", s_[2][0] if s_[2] else None)
+            if a_ is not None:
+                out.append(a_)
+        elif s_[0] in ("rec", "new") and isinstance(s_[1], str) and s_[1].endswith(".Product"):
+            f_ = dict(s_[2]) if s_[0] == "rec" else dict(s_[3])
+            if f_.get("expressions") is not None:
+                out.append(f_["expressions"])
+    return out
+
+
+def _is_set_valued(t: Term) -> bool:
+    while is_term(t) and t[0] == "call" and t[1] in ("tuple", "list", "sorted", "iter") and len(t[2]) == 1:
+        t = t[2][0]
+    return is_term(t) and (t[0] in ("setof", "setlit", "union", "inter", "diff") or (t[0] == "comp" and t[1] == "set")
+                           or (t[0] == "call" and t[1] in ("set", "frozenset")))
+
+
+def multiplicity_mismatch(x: Any, y: Any) -> str | None:
+    """The factors of a product are a MULTISET.  Collections are otherwise compared by their elements, which cannot tell `{f(e) for e in E}` from
+    `[f(e) for e in E]`; handed to Product.safe the first one loses every repeated factor (x·x becomes x)."""
+    ax, ay = _factor_args(x), _factor_args(y)
+    if len(ax) != len(ay):
+        return None
+    for a_, b_ in zip(ax, ay):
+        if _is_set_valued(a_) != _is_set_valued(b_):
+            side = "implementation" if _is_set_valued(a_) else "definition"
+            return (f"the {side} collects the factors of a product in a SET ({show(a_ if _is_set_valued(a_) else b_)[:120]}): equal factors collapse, "
+                    f"x·x becomes x")
+    return None
+
+
 def guarded_equal(x: Any, y: Any, guard, sa: SetAlg, depth: int = 0, foralls: tuple = ()) -> bool:
     """Are the two (raw) values equal on every input that satisfies the joint guard?  Set-valued operands are compared by membership
     under the guard (a part that is empty on these inputs does not count); everything else must have the same canonical form."""
@@ -1360,6 +1396,9 @@ def compare_with_reference(model: Model, impl_q: str, ref_q: str, types: dict[st
                 if (ra != a.raw or rb != b.raw) and guarded_equal(ra, rb, joint_guard(a, b, sa), sa, foralls=fas):
                     agreed.add(id(b))
                     continue
+            mm_ = multiplicity_mismatch(a.raw, b.raw) if a.kind == b.kind == "return" and not a.unknown else None
+            if mm_ is not None:
+                return f, "REFUTED", mm_ + f" (line {a.path.line})", sample
             if a.kind == b.kind == "return" and not a.unknown and (guarded_equal(a.raw, b.raw, joint_guard(a, b, sa), sa, foralls=fas) or (
                     fas and guarded_equal(drop_implied_filters(a.raw, fas, sa), drop_implied_filters(b.raw, fas, sa), joint_guard(a, b, sa), sa, foralls=fas))):
                 agreed.add(id(b))
